@@ -327,6 +327,118 @@ theorem Ob_MapSlab_PopIterate_heap_res_zero (sl : MDataSlab r) (x : Option DX) (
   cases hg : sl.elems with
   | mk a b c d => rw [hg] at h1 h2 h3; simp only at h1 h2 h3; subst h1 h2 h3; rfl
 
+/-! ### the failing case: a child the heap does not hold -/
+
+theorem mdp_goIdx {d : Nat} (m : MMetaSlab (MTree r d)) (x : Option DX)
+    (hw : m.childHdrs = m.children.map (MTree.hdr d)) (n : Nat) (hn : n < m.children.length) :
+    goIdx (md_meta m x).childrenHeaders (Int.ofNat n) = some (md_hdr (MTree.hdr d m.children[n])) := by
+  simp [goIdx, md_meta, hw, hn]
+
+/-- the storage after the children in `l` (given FIRST TO LAST) were popped last to first and removed -/
+def mdp_kidsPost (d : Nat) (l : List (MTree r d)) (s : MHSt r) : MHSt r :=
+  { heap := fun id => if id ∈ l.flatMap (md_ids d) then none else s.heap id,
+    ctx := (mdp_popList d l.reverse s.ctx).2,
+    popped := s.popped ++ (mdp_popList d l.reverse s.ctx).1 }
+
+/-- loop 1 when child `j` is not in the heap: the children to its right (`j+1 .. j+k`) are popped and removed, then
+    `getMapSlab` fails with `SlabNotFound` and the loop returns the receiver unchanged -/
+theorem mdp_popLoop_notFound (T : Nat) (eb : DEnvB r) (rs : DRestruct r) (d : Nat)
+    (rec_ : MapMetaDataSlab DX → MHSt r → Option (Option GE × MapMetaDataSlab DX × MHSt r))
+    (hrec : mdp_RecSpec T eb rs d rec_) (m : MMetaSlab (MTree r d)) (x : Option DX)
+    (hw : m.childHdrs = m.children.map (MTree.hdr d)) (j : Nat) (hj : j < m.children.length) :
+    ∀ (k : Nat) (s : MHSt r), j + 1 + k ≤ m.children.length →
+      s.heap (MTree.hdr d m.children[j]).id = none →
+      (∀ c ∈ (m.children.take (j + 1 + k)).drop (j + 1), MHolds s.heap d c none) →
+      (((m.children.take (j + 1 + k)).drop (j + 1)).flatMap (md_ids d)).Nodup →
+      (∀ c ∈ (m.children.take (j + 1 + k)).drop (j + 1), mdp_Wf d c ∧ mdp_RootOk d c none ∧ mdp_LeafOk d c) →
+      MapMetaDataSlab_PopIterate.loop1 (envD T eb rs) (md_meta m x) rec_ (j + 1 + k) s =
+        .ret (some (some .slabNotFound, md_meta m x,
+          mdp_kidsPost d ((m.children.take (j + 1 + k)).drop (j + 1)) s))
+  | 0, s, _, hnone, _, _, _ => by
+    have hidx : goIdx (md_meta m x).childrenHeaders (Int.ofNat j) = some (md_hdr (MTree.hdr d m.children[j])) := by
+      simp [goIdx, md_meta, hw, hj]
+    have hid : (md_hdr (MTree.hdr d m.children[j])).slabID = (MTree.hdr d m.children[j]).id := rfl
+    have hnil : (m.children.take (j + 1 + 0)).drop (j + 1) = [] := by simp
+    rw [hnil]
+    show MapMetaDataSlab_PopIterate.loop1 (envD T eb rs) (md_meta m x) rec_ (j + 1) s = _
+    unfold MapMetaDataSlab_PopIterate.loop1
+    simp only [hidx]
+    rw [hid, mdp_getMapSlab_none T eb rs s _ hnone]
+    simp [mdp_kidsPost, mdp_popList]
+  | k + 1, s, hn, hnone, hh, hnd, hok => by
+    have hlt : j + 1 + k < m.children.length := by omega
+    have htake : (m.children.take (j + 1 + (k + 1))).drop (j + 1) =
+        (m.children.take (j + 1 + k)).drop (j + 1) ++ [m.children[j + 1 + k]] := by
+      rw [show j + 1 + (k + 1) = j + 1 + k + 1 from rfl, List.take_succ_eq_append_getElem hlt,
+        List.drop_append_of_le_length (by simp; omega)]
+    generalize hL : (m.children.take (j + 1 + k)).drop (j + 1) = L at htake
+    have hmemn : m.children[j + 1 + k] ∈ (m.children.take (j + 1 + (k + 1))).drop (j + 1) := by
+      rw [htake]; exact List.mem_append_right _ (List.mem_singleton.mpr rfl)
+    have hsub : ∀ c ∈ L, c ∈ (m.children.take (j + 1 + (k + 1))).drop (j + 1) := fun c hc => by
+      rw [htake]; exact List.mem_append_left _ hc
+    have hcn := hh _ hmemn
+    have hokn := hok _ hmemn
+    rw [htake] at hnd ⊢
+    rw [List.flatMap_append, List.nodup_append] at hnd
+    obtain ⟨hnd1, hnd2, hdisj⟩ := hnd
+    simp only [List.flatMap_cons, List.flatMap_nil, List.append_nil] at hnd2 hdisj
+    have hidx : goIdx (md_meta m x).childrenHeaders (Int.ofNat (j + 1 + k)) =
+        some (md_hdr (MTree.hdr d m.children[j + 1 + k])) := mdp_goIdx m x hw _ hlt
+    show MapMetaDataSlab_PopIterate.loop1 (envD T eb rs) (md_meta m x) rec_ (j + 1 + k + 1) s = _
+    unfold MapMetaDataSlab_PopIterate.loop1
+    simp only [hidx]
+    have hid : (md_hdr (MTree.hdr d m.children[j + 1 + k])).slabID = (MTree.hdr d m.children[j + 1 + k]).id := rfl
+    rw [hid, mdp_getMapSlab_some T eb rs s _ _ hcn.root (mdp_tree_isNil _ _ _)]
+    simp only [Option.isNone_none, Bool.not_true, Bool.false_eq_true, if_false]
+    rw [hrec m.children[j + 1 + k] none s hcn hnd2 hokn.1 hokn.2.1 hokn.2.2]
+    simp only [Option.isNone_none, Bool.not_true, Bool.false_eq_true, if_false, envD_remove]
+    rw [mdp_popLoop_notFound T eb rs d rec_ hrec m x hw j hj k _ (Nat.le_of_lt hlt)]
+    · rw [hL]
+      simp only [mdp_kidsPost, MHSt.remove, mdp_post, List.reverse_append, List.reverse_cons, List.reverse_nil,
+        List.nil_append, List.cons_append, mdp_popList, List.flatMap_append, List.flatMap_cons, List.flatMap_nil,
+        List.append_nil, List.mem_append, List.append_assoc]
+      congr 5
+      funext id
+      rw [mdp_ids_cons d m.children[j + 1 + k]]
+      simp only [List.mem_cons]
+      by_cases h1 : id ∈ L.flatMap (md_ids d) <;> by_cases h2 : id = (MTree.hdr d m.children[j + 1 + k]).id <;>
+        by_cases h3 : id ∈ (md_ids d m.children[j + 1 + k]).tail <;> simp [h1, h2, h3]
+    · simp [MHSt.remove, mdp_post, hnone]
+    · rw [hL]
+      intro c hc
+      refine mdp_holds_congr d c none (hh c (hsub c hc)) (fun id hid => ?_)
+      have hmem : id ∈ L.flatMap (md_ids d) := List.mem_flatMap.mpr ⟨c, hc, hid⟩
+      have hne := hdisj id hmem
+      have hnot : id ∉ md_ids d m.children[j + 1 + k] := fun h => hne id h rfl
+      rw [mdp_ids_cons] at hnot
+      simp only [List.mem_cons, not_or] at hnot
+      simp [MHSt.remove, mdp_post, hnot.1, hnot.2]
+    · rw [hL]; exact hnd1
+    · rw [hL]; intro c hc; exact hok c (hsub c hc)
+
+/-- `MapSlab.PopIterate` on an index slab one of whose children (`j`) the heap does not hold, the children to its right
+    being held: the `SlabNotFound` error, the receiver UNCHANGED (headers not cleared, size not reset), the siblings to
+    the right of `j` already popped (the callback saw their entries) and removed from the storage -/
+theorem Ob_MapSlab_PopIterate_heap_notFound (T : Nat) (eb : DEnvB r) (rs : DRestruct r) (depth d : Nat)
+    (hd : d + 1 ≤ depth) (m : MMetaSlab (MTree r d)) (x : Option DX) (s : MHSt r)
+    (hw : m.childHdrs = m.children.map (MTree.hdr d)) (j : Nat) (hj : j < m.children.length)
+    (hnone : s.heap (MTree.hdr d m.children[j]).id = none)
+    (hh : ∀ c ∈ m.children.drop (j + 1), MHolds s.heap d c none)
+    (hnd : ((m.children.drop (j + 1)).flatMap (md_ids d)).Nodup)
+    (hok : ∀ c ∈ m.children.drop (j + 1), mdp_Wf d c ∧ mdp_RootOk d c none ∧ mdp_LeafOk d c) :
+    MapSlab_PopIterate (envD T eb rs) (MapMetaDataSlab_PopIterate (envD T eb rs) depth) (md_tree (d + 1) m x) s =
+      some (some .slabNotFound, md_tree (d + 1) m x, mdp_kidsPost d (m.children.drop (j + 1)) s) := by
+  obtain ⟨depth, rfl⟩ : ∃ k, depth = k + 1 := ⟨depth - 1, by omega⟩
+  have hrec := mdp_recSpec T eb rs depth d (by omega)
+  have hlen : j + 1 + (m.children.length - (j + 1)) = m.children.length := by omega
+  have hloop := mdp_popLoop_notFound T eb rs d _ hrec m x hw j hj (m.children.length - (j + 1)) s (by omega) hnone
+  rw [hlen, List.take_length] at hloop
+  have hloop' := hloop hh hnd hok
+  show MapSlab_PopIterate _ _ (.metaSlab (md_meta m x)) s = _
+  unfold MapSlab_PopIterate MapMetaDataSlab_PopIterate
+  simp only [mdp_count m x hw, hloop']
+  rfl
+
 /-! ### non-vacuity: a depth-1 tree with two data slabs -/
 
 def mdp_exKA : MKey := ⟨1, 7, [5]⟩
